@@ -305,4 +305,151 @@ Section Ops.
     - exists c; split; [apply in_or_app; auto|apply ceq_refl].
     - destruct (Hs c Hc) as (c' & Hin & He). exists c'; split; [apply in_or_app; auto|auto].
   Qed.
+
+  (* ---- ... and loses none: what the visited set drops is a repetition --------- *)
+  Hypothesis teqb_eq : forall a b, teqb a b = true -> a = b.
+  Hypothesis teqb_refl : forall a, teqb a a = true.
+
+  Notation key_eqb := (key_eqb T teqb).
+  Definition represented (k : key) (vis : list key) : Prop := existsb (key_eqb k) vis = true.
+
+  Lemma key_eqb_refl k : key_eqb k k = true.
+  Proof. destruct k as [[c t] i]. unfold Model.key_eqb; simpl. now rewrite name_eqb_refl, teqb_refl, Nat.eqb_refl. Qed.
+  Lemma represented_cons k v vis : represented k vis -> represented k (v :: vis).
+  Proof. unfold represented; simpl. intros ->. apply orb_true_r. Qed.
+  Lemma represented_incl k vis vis' : incl vis vis' -> represented k vis -> represented k vis'.
+  Proof.
+    unfold represented. rewrite !existsb_exists. intros Hi (x & Hx & E). exists x; split; auto.
+  Qed.
+
+  Lemma csub_app (a b out : list contour) : csub a out -> csub b out -> csub (a ++ b) out.
+  Proof. intros Ha Hb c Hc. apply in_app_or in Hc as [Hc|Hc]; auto. Qed.
+  Lemma csub_weaken (a out out' : list contour) : csub a out -> (forall c, In c out -> In c out') -> csub a out'.
+  Proof. intros Ha Hi c Hc. destruct (Ha c Hc) as (c' & Hin & E). exists c'; auto. Qed.
+
+  Lemma keys_from_in t0 cs : forall i k, In k (keys_from i t0 cs) ->
+    exists c t j, k = (c, tmul t0 t, j) /\ In (c, t) cs.
+  Proof.
+    induction cs as [|[c t] rest IH]; intros i k Hin; simpl in Hin; [contradiction|].
+    destruct Hin as [<-|Hin]; [exists c, t, i; split; auto; now left|].
+    destruct (IH _ _ Hin) as (c' & t' & j & -> & Hin'). exists c', t', j; split; auto. now right.
+  Qed.
+  Lemma keys_from_complete t0 cs : forall i c t, In (c, t) cs -> exists j, In (c, tmul t0 t, j) (keys_from i t0 cs).
+  Proof.
+    induction cs as [|[c0 t0'] rest IH]; intros i c t Hin; [contradiction|]. simpl.
+    destruct Hin as [Heq|Hin]; [inversion Heq; subst; exists i; now left|].
+    destruct (IH (S i) c t Hin) as (j & Hj). exists j; now right.
+  Qed.
+
+  Lemma rcomps_csub F cs k out :
+    rcomps F cs k ->
+    (forall c t a, In (c, t) cs -> res F c a -> csub (map (tr t) a) out) -> csub k out.
+  Proof.
+    induction 1 as [|c t rest a b Ha Hb IH]; intro H; [intros x []|].
+    apply csub_app; [eapply H; eauto; now left|apply IH; intros; eapply H; eauto; now right].
+  Qed.
+
+  (* own contours of a visited key *)
+  Definition own_in (F : font) (v : key) (out : list contour) : Prop :=
+    forall h, F (fst (fst v)) = Some h -> forall c, In c (g_contours h) -> In (tr_rev (snd (fst v)) c) out.
+  (* the children of a visited key are waiting or taken care of *)
+  Definition kids_in (F : font) (v : key) (fr vis : list key) : Prop :=
+    forall h, F (fst (fst v)) = Some h ->
+    forall k, In k (keys_from 0 (snd (fst v)) (g_comps h)) -> In k fr \/ represented k vis.
+
+  Lemma bfs_final fuel F : forall fr vis acc d out d',
+    bfs fuel F fr vis acc d = Some (out, d') ->
+    (forall v, In v vis -> own_in F v acc) ->
+    (forall v, In v vis -> kids_in F v fr vis) ->
+    exists Vf, incl vis Vf /\ (forall c, In c acc -> In c out) /\
+               (forall k, In k fr -> represented k Vf) /\
+               (forall v, In v Vf -> own_in F v out) /\
+               (forall v, In v Vf -> kids_in F v [] Vf).
+  Proof.
+    induction fuel as [|fuel IH]; intros fr vis acc d out d' H Hown Hkids; [discriminate|].
+    cbn [Model.bfs] in H. destruct fr as [|k rest].
+    - inversion H; subst. exists vis. repeat split; auto using incl_refl. intros k [].
+    - destruct (existsb (key_eqb k) vis) eqn:Evis.
+      + (* already visited *)
+        destruct (IH _ _ _ _ _ _ H Hown) as (Vf & Hi & Ha & Hf & Ho & Hk).
+        { intros v Hv h Hh k' Hk'. destruct (Hkids v Hv h Hh k' Hk') as [[<-|Hin]|Hr]; auto. }
+        exists Vf. repeat split; auto.
+        intros k' [<-|Hin]; auto. eapply represented_incl; eauto.
+      + destruct (F (fst (fst k))) as [h|] eqn:Ek.
+        * destruct (IH _ _ _ _ _ _ H) as (Vf & Hi & Ha & Hf & Ho & Hk).
+          { intros v [<-|Hv] h' Hh' c Hc.
+            - rewrite Ek in Hh'. inversion Hh'; subst. apply in_or_app; right. now apply in_map.
+            - apply in_or_app; left. eapply Hown; eauto. }
+          { intros v [<-|Hv] h' Hh' k' Hk'.
+            - rewrite Ek in Hh'. inversion Hh'; subst. left. apply in_or_app; now right.
+            - destruct (Hkids v Hv h' Hh' k' Hk') as [[<-|Hin]|Hr].
+              + right. unfold represented; simpl. now rewrite key_eqb_refl.
+              + left. apply in_or_app; now left.
+              + right. now apply represented_cons. }
+          exists Vf. repeat split; auto.
+          -- intros v Hv. apply Hi. now right.
+          -- intros c Hc. apply Ha. apply in_or_app; now left.
+          -- intros k' [<-|Hin]; [|apply Hf; apply in_or_app; now left].
+             unfold represented. apply existsb_exists. exists k; split; [apply Hi; now left|apply key_eqb_refl].
+        * destruct (IH _ _ _ _ _ _ H) as (Vf & Hi & Ha & Hf & Ho & Hk).
+          { intros v [<-|Hv] h' Hh'; [congruence|]. eapply Hown; eauto. }
+          { intros v [<-|Hv] h' Hh' k' Hk'; [congruence|].
+            destruct (Hkids v Hv h' Hh' k' Hk') as [[<-|Hin]|Hr].
+            - right. unfold represented; simpl. now rewrite key_eqb_refl.
+            - now left.
+            - right. now apply represented_cons. }
+          exists Vf. repeat split; auto.
+          -- intros v Hv. apply Hi. now right.
+          -- intros k' [<-|Hin]; [|apply Hf; auto].
+             unfold represented. apply existsb_exists. exists k; split; [apply Hi; now left|apply key_eqb_refl].
+  Qed.
+
+  Lemma represented_same k Vf : represented k Vf ->
+    exists v, In v Vf /\ fst (fst v) = fst (fst k) /\ snd (fst v) = snd (fst k).
+  Proof.
+    unfold represented. rewrite existsb_exists. intros (v & Hv & E). exists v; split; auto.
+    unfold Model.key_eqb in E. apply andb_true_iff in E as (E & _). apply andb_true_iff in E as (E1 & E2).
+    apply name_eqb_eq in E1. apply teqb_eq in E2. split; congruence.
+  Qed.
+
+  Lemma closed_covers (r : name -> nat) F Vf out :
+    wf r F ->
+    (forall v, In v Vf -> own_in F v out) ->
+    (forall v, In v Vf -> kids_in F v [] Vf) ->
+    forall n v, r (fst (fst v)) = n -> In v Vf ->
+    forall a, res F (fst (fst v)) a -> csub (map (tr (snd (fst v))) a) out.
+  Proof.
+    intros Hwf Hown Hkids n. induction n as [n IH] using (well_founded_induction lt_wf).
+    intros [[c t] i] Hn Hv a Ha; simpl in *. apply res_unfold in Ha.
+    destruct (F c) as [h|] eqn:Ec; [|subst a; intros x []].
+    destruct Ha as (k & Hk & ->). rewrite map_app. apply csub_app.
+    - intros x Hx. apply in_map_iff in Hx as (c0 & <- & Hc0).
+      exists (tr_rev t c0); split; [apply (Hown _ Hv h Ec c0 Hc0)|apply ceq_tr_rev].
+    - assert (rcomps F (map (compose t) (g_comps h)) (map (tr t) k)) as Hk' by (apply rcomps_compose; auto).
+      eapply rcomps_csub; [exact Hk'|]. intros c' t' a' Hin Ha'.
+      apply (in_map_iff (compose t)) in Hin as ([c1 t1] & Heq & Hin1). inversion Heq; subst c' t'.
+      destruct (keys_from_complete t (g_comps h) 0 c1 t1 Hin1) as (j & Hj).
+      destruct (Hkids _ Hv h Ec _ Hj) as [[]|Hr].
+      destruct (represented_same _ _ Hr) as ([[c2 t2] i2] & Hv2 & E1 & E2); simpl in *; subst c2 t2.
+      apply (IH (r c1)) with (v := (c1, tmul t t1, i2)); auto.
+      subst n. eapply Hwf; eauto.
+  Qed.
+
+  (* every resolved contour is in the result, whatever the visited set dropped *)
+  Lemma decompose_covers (r : name -> nat) fuel F g g' d cs :
+    wf r F -> decompose fuel F g = Some (g', d) -> gres F g cs -> csub cs (g_contours g').
+  Proof.
+    unfold Model.decompose. intros Hwf H (k & Hk & ->).
+    destruct (bfs fuel F (keys_from 0 tid (g_comps g)) [] [] false) as [[out d0]|] eqn:E; [|discriminate].
+    inversion H; subst; simpl.
+    destruct (bfs_final fuel F _ _ _ _ _ _ E) as (Vf & _ & _ & Hf & Ho & Hkd); [intros v []|intros v []|].
+    apply csub_app.
+    - intros c Hc. exists c; split; [apply in_or_app; now left|apply ceq_refl].
+    - eapply csub_weaken; [|intros c Hc; apply in_or_app; right; exact Hc].
+      eapply rcomps_csub; [exact Hk|]. intros c t a Hin Ha.
+      destruct (keys_from_complete tid (g_comps g) 0 c t Hin) as (j & Hj).
+      destruct (represented_same _ _ (Hf _ Hj)) as ([[c2 t2] i2] & Hv2 & E1 & E2); simpl in *; subst c2 t2.
+      pose proof (closed_covers r F Vf out Hwf Ho Hkd (r c) (c, tmul tid t, i2) eq_refl Hv2 a Ha) as Hc. simpl in Hc.
+      rewrite map_tr_mul, map_tr_id in Hc. exact Hc.
+  Qed.
 End Ops.
